@@ -107,7 +107,7 @@ RULE = ("cases = (operation, shape, dtype, data seed/flavour, chunking, axis sel
         "split_every, parameters).")
 ASSUMPTIONS = ["NumPy 2.x defines expected values, dtype and shape", "sync scheduler",
                "moment / topk / argtopk have no NumPy function: the reference is their documented definition"]
-BUDGET = {"quick": 40, "thorough": 540}
+BUDGET = {"quick": 60, "thorough": 700}
 FLOORS = {  # ~45 % of the counts measured on the current tree (quick: 5904 cases / ~4780 distinct)
     "quick": {"evaluations": 2600, "distinct_nontrivial": 2100,
               "counters": {"compared": 3200, "arg_compared": 830, "combine_level_runs": 660, "split_every_pairs": 1400,
@@ -978,7 +978,7 @@ def _deco_feats(case, symptom):
     if case.get("w") and _variant_clears(case, symptom, w=None):
         f.append("weights=" + case["w"]["kind"])
         red = _norm_axes(_axis(case.get("axis")), len(case["shape"]))
-        if any(len(c) > 1 for a, c in enumerate(case["chunks"]) if a not in red):
+        if symptom.startswith("raises@") and any(len(c) > 1 for a, c in enumerate(case["chunks"]) if a not in red):
             f.append("nonreduced-axis-split")
     if isinstance(case.get("ddof"), float) and _variant_clears(case, symptom, ddof=int(case["ddof"] + 0.5)):
         f.append("ddof-noninteger")
@@ -1069,7 +1069,8 @@ def _exc_prefix(case, x):
     if family(op) == "cum":
         f.append(case["method"])
     if family(op) == "quant" and isinstance(case["q"], list) and case["q"] and isinstance(case["q"][0], list):
-        f.append("q.ndim>a.ndim" if x.ndim < 2 else "q-2d")
+        if x.ndim < 2:
+            f.append("q.ndim>a.ndim")
     if case.get("dtype_arg"):
         f.append("dtype=given")
     return "%s:%s" % (op, "&".join(f) if f else "any")
